@@ -215,7 +215,62 @@ def h_get_current_schema(h: H):
         h.cover("SCHEMA:None-reachable")
 
 
+def h_recorded_manifest_count(h: H):
+    """recorded_manifest_count(snapshot): the integer stored under summary['manifest-count'], None when the snapshot has no summary,
+    no such key, or a value that is not an integer (older snapshots) - never raises."""
+    c = h.ctx
+    shape = c.choose(4, "summary-shape")
+    raw = SStr(c.fresh_str("recorded_text"))
+    if shape == 0:
+        snap = SObj("Snapshot", {"summary": None})
+    elif shape == 1:
+        snap = SObj("Snapshot", {"summary": PDict({})})
+    elif shape == 2:
+        snap = SObj("Snapshot", {"summary": PDict({"manifest-count": raw})})
+    else:
+        snap = SObj("Snapshot", {"summary": PDict({"manifest-count": SInt(c.fresh_int("recorded_int"))})})
+    out, val = h.run("file_manager:recorded_manifest_count", [snap])
+    h.ensure("COUNT:recorded_manifest_count-never-raises", out == "ok", detail=repr(val) if out != "ok" else "")
+    if out != "ok":
+        return
+    if shape in (0, 1):
+        h.ensure("COUNT:no-summary-or-no-key=>None", val is None)
+    elif shape == 2:
+        if val is not None:
+            h.ensure("COUNT:text-value=>its-integer-reading", pyops.int_z(val) == pb.PYINT(raw.z))
+    else:
+        h.ensure("COUNT:integer-value-returned-as-is", val is not None and z3.is_true(z3.simplify(pyops.int_z(val) == snap.fields["summary"].d["manifest-count"].z)))
+
+
+def h_expected_entry_count(h: H):
+    c = h.ctx
+    a = SInt(c.fresh_int("added")) if c.flip("added-is-int") else None
+    e = SInt(c.fresh_int("existing")) if c.flip("existing-is-int") else None
+    m = SObj("ManifestFile", {"added_data_files_count": a, "existing_data_files_count": e})
+    out, val = h.run(f"{FM}:FileManager.expected_entry_count", [m])
+    h.ensure("COUNT:expected_entry_count-never-raises", out == "ok")
+    if out == "ok":
+        if a is not None and e is not None:
+            h.ensure("COUNT:entries-expected=added+existing", val is not None and z3.is_true(z3.simplify(pyops.int_z(val) == a.z + e.z)))
+        else:
+            h.ensure("COUNT:unknown-counts=>no-expectation", val is None)
+
+
+def h_check_count(h: H):
+    c = h.ctx
+    got = SInt(c.fresh_int("got"))
+    exp = SOpt(c.fresh_bool("expected_none"), SInt(c.fresh_int("expected")))
+    out, val = h.run(f"{FM}:FileManager._check_count", ["Manifest", SStr(c.fresh_str("path")), got, exp])
+    h.ensure("COUNT:_check_count-raises-ValueError-iff-a-recorded-count-differs-from-what-was-read",
+             z3.BoolVal(out == "raise") == z3.And(z3.Not(exp.isnone), got.z != exp.val.z))
+    if out == "raise":
+        h.ensure("COUNT:the-error-is-a-ValueError(not-swallowed-by-the-JSON-fallback's-handler)", val.cls == "ValueError")
+
+
 UNITS = {
+    "COUNT/recorded_manifest_count": (h_recorded_manifest_count, ["file_manager:recorded_manifest_count"]),
+    "COUNT/expected_entry_count": (h_expected_entry_count, [f"{FM}:FileManager.expected_entry_count"]),
+    "COUNT/_check_count": (h_check_count, [f"{FM}:FileManager._check_count"]),
     "NAME-RT/generated-name": (h_name_roundtrip("generated"), [f"{MM}:MetadataManager._new_metadata_filename", f"{MM}:MetadataManager._parse_hint_content"]),
     "NAME-RT/legacy-name": (h_name_roundtrip("legacy-name"), [f"{MM}:MetadataManager._parse_hint_content"]),
     "NAME-RT/bare-number": (h_name_roundtrip("bare-number"), [f"{MM}:MetadataManager._parse_hint_content"]),
